@@ -1103,10 +1103,10 @@ fn codec_enumeration(cx: &mut Ctx) {
                                 table.insert(format!("{}::{}", rel, name), json!(a));
                             }
                             None => {
-                                // parse_* helpers of non-codec files that merely mention a RESP literal
-                                let benign = name.starts_with("parse_") && !rel.contains("resp") && !src.contains("fn find_crlf") && !src.contains("fn parse_resp");
+                                // helpers that are no RESP codecs, in files that contain one: listed one by one
+                                let benign = matches!((rel.as_str(), name.as_str()), ("src/bin/server_persistent.rs", "parse_replica_id_from_env") | ("src/production/connection_optimized.rs", "parse_usize_fast"));
                                 if benign {
-                                    table.insert(format!("{}::{}", rel, name), json!("not a RESP codec (argument / option parser in a file that mentions a RESP literal)"));
+                                    table.insert(format!("{}::{}", rel, name), json!("not a RESP codec (environment / length-field helper; parse_usize_fast is part of the C04 recognisers)"));
                                 } else {
                                     table.insert(format!("{}::{}", rel, name), json!("UNACCOUNTED"));
                                     cx.out.violation(&format!("C15:coverage:resp-codec-not-accounted:{}::{}", rel, name), "a function of the source tree looks like a RESP encoder / decoder and is neither in the model's table nor listed with the reason why not (harness/src/c15.rs codec_enumeration)", json!({"file": rel, "fn": name}));
